@@ -225,3 +225,26 @@ CHECKS["C20"] = {
         "sync.RWMutex modelled as a lock bit; metrics/logging are no-ops",
     ],
 }
+
+# ---------------------------------------------------------------------------------------------------------------
+_C9R = []
+CHECKS["C09"] = {
+    "pkg": "./core/sigagg",
+    "parallel": 8,
+    "quick": [
+        {"harness": "VerifC09Aggregate", "params": {"n": 4, "nv": [1, 2], "m": [2, 3, 4]}, "redirects": _C9R},
+        {"harness": "VerifC09Aggregate", "params": {"n": 3, "nv": 1, "m": [2, 3]}, "redirects": _C9R},
+    ],
+    "thorough": [
+        {"harness": "VerifC09Aggregate", "params": {"n": [3, 4, 5, 6, 7], "nv": [1, 2], "m": [2, 3, 4, 5, 6]}, "redirects": _C9R, "cross": True},
+    ],
+    "bounds": {
+        "quick": "n in {3,4}, threshold ceil(2n/3); one Aggregate call over 1 or 2 validators with 2..4 partials each; share index (1..n), signed root and all four signature-token fields of every partial symbolic (wrong share, wrong index, other message, invalid, repeated share, too few are all instances)",
+        "thorough": "n in 3..7, up to 6 partials per validator, both solvers",
+    },
+    "outside": "the BLS algebra itself (C08: ideal functionality instead); NewVerifier -> core.VerifyEth2SignedData -> signing.Verify (domain, epoch and fork handling of the real verifier; the harness verifier checks the group token against the object's own root); real SignedData types and the VersionedAttestation ValidatorIndex special case; SSZ roots",
+    "assumptions": [
+        "ideal threshold BLS: combining partials yields the group signature over root r of validator v exactly when every combined entry is a partial by its own map index, of v, over r, and there are at least threshold entries; anything else yields a signature that never verifies",
+        "tracing/metrics/logging are no-ops",
+    ],
+}
